@@ -951,15 +951,12 @@ func opReferenceChangeJournal(ctx context.Context, pc *uint64, interpreter *EVMI
 		return length.Uint64(), nil
 	}
 
-	unmask := func(rawData []byte, length uint64) []byte {
-		data := new(uint256.Int).SetBytes(rawData)
-		mask := new(uint256.Int).Add(storageMask, zero)
-		ret := data.And(data, mask.Not(mask)).Bytes()
-		return ret[:]
-	}
-
 	u64Ceiling := func(nom, denom uint64) uint64 {
-		return (nom + denom - 1) / denom
+		res := nom / denom
+		if nom%denom != 0 {
+			res++
+		}
+		return res
 	}
 
 	keccak := func(interpreter *EVMInterpreter, data []byte) []byte {
@@ -988,15 +985,19 @@ func opReferenceChangeJournal(ctx context.Context, pc *uint64, interpreter *EVMI
 
 	var stateBytes []byte
 	if length < 32 {
-		stateBytes = unmask(rawState[:], length)
-		stateBytes = stateBytes[:length]
+		// in-place encoding: the content is the first `length` bytes of the slot word
+		stateBytes = rawState[:length]
 	} else {
-		referenceSlot := new(uint256.Int).SetBytes(keccak(interpreter, storageSlot.Bytes()))
+		// out-of-place encoding: the content starts at keccak256(slot as 32 bytes) and
+		// occupies ceil(length/32) consecutive slots
+		slotKey := storageSlot.Bytes32()
+		referenceSlot := new(uint256.Int).SetBytes(keccak(interpreter, slotKey[:]))
 		for i := uint64(0); i < u64Ceiling(length, 32); i++ {
-			offset := referenceSlot.Add(referenceSlot, one).Bytes32()
-			currentRawState := interpreter.evm.StateDB.GetState(contract, offset)
+			currentRawState := interpreter.evm.StateDB.GetState(contract, referenceSlot.Bytes32())
 			stateBytes = append(stateBytes, currentRawState[:]...)
+			referenceSlot.Add(referenceSlot, one)
 		}
+		stateBytes = stateBytes[:length]
 	}
 
 	err = interpreter.tracer.SaveStateChange(contract, &storageSlot, nil, typeId.Bytes32(), stateBytes)
